@@ -644,38 +644,44 @@ Qed.
 (* ------------------------------------------------------------------ GuestMemory roots *)
 Lemma find_region_lin_spec l : forall i0 addr i r,
   find_region_lin i0 (mk_regions i0 l) addr = Some (i, r) ->
-  exists gb sz, nth_error l (N.to_nat (i - i0)) = Some (gb, sz) /\ i0 <= i /\
+  exists gb sz, nth_region l (i - i0) = Some (gb, sz) /\ i0 <= i /\
     r = GR (RG (REG_BASE + i * REG_STRIDE) sz) gb /\ gb <= addr /\ addr - gb < sz.
 Proof.
   induction l as [|[gb sz] l IH]; intros i0 addr i r E; cbn [mk_regions find_region_lin] in E; [discriminate|].
   cbn [gr_base gr_len gr_map rg_size] in E.
-  destruct (N.leb_spec gb addr) as [H1|H1]; cbn [andb] in E.
-  - destruct (N.ltb_spec (addr - gb) sz) as [H2|H2].
-    + inversion E; subst. exists gb, sz. rewrite N.sub_diag. cbn [N.to_nat nth_error].
-      repeat split; try reflexivity; try assumption; lia.
-    + destruct (IH _ _ _ _ E) as (gb' & sz' & Hn & Hi & Hr & Ha & Hb).
-      exists gb', sz'. replace (N.to_nat (i - i0)) with (S (N.to_nat (i - (i0 + 1)))) by lia.
-      cbn [nth_error]. repeat split; try assumption; lia.
-  - destruct (IH _ _ _ _ E) as (gb' & sz' & Hn & Hi & Hr & Ha & Hb).
-    exists gb', sz'. replace (N.to_nat (i - i0)) with (S (N.to_nat (i - (i0 + 1)))) by lia.
-    cbn [nth_error]. repeat split; try assumption; lia.
+  assert (REC : find_region_lin (i0 + 1) (mk_regions (i0 + 1) l) addr = Some (i, r) ->
+                exists gb' sz', nth_region ((gb, sz) :: l) (i - i0) = Some (gb', sz') /\ i0 <= i /\
+                  r = GR (RG (REG_BASE + i * REG_STRIDE) sz') gb' /\ gb' <= addr /\ addr - gb' < sz').
+  { intros E'. destruct (IH _ _ _ _ E') as (gb' & sz' & Hn & Hi & Hr & Ha & Hb).
+    exists gb', sz'. cbn [nth_region]. destruct (N.eqb_spec (i - i0) 0) as [Hz|_]; [lia|].
+    replace (i - i0 - 1) with (i - (i0 + 1)) by lia. repeat split; try assumption; lia. }
+  destruct (N.leb_spec gb addr) as [H1|H1]; cbn [andb] in E; [|exact (REC E)].
+  destruct (N.ltb_spec (addr - gb) sz) as [H2|H2]; [|exact (REC E)].
+  inversion E; subst. exists gb, sz. rewrite N.sub_diag. cbn [nth_region]. rewrite N.eqb_refl.
+  repeat split; try reflexivity; try assumption; lia.
 Qed.
 
+Lemma nth_region_In l : forall i x, nth_region l i = Some x -> In x l /\ i < N.of_nat (length l).
+Proof.
+  induction l as [|y l IH]; intros i x E; cbn [nth_region] in E; [discriminate|].
+  destruct (N.eqb_spec i 0) as [->|Hi].
+  - inversion E; subst. split; [left; reflexivity|cbn [length]; lia].
+  - destruct (IH _ _ E) as [H1 H2]. split; [right; exact H1|cbn [length]; lia].
+Qed.
 
 Lemma REG_BASE_val : REG_BASE = 70368744177664. Proof. reflexivity. Qed.
 Lemma REG_STRIDE_val : REG_STRIDE = 1099511627776. Proof. reflexivity. Qed.
 
 Lemma find_ok l addr i r : wf_regions l ->
   find_region_lin 0 (mk_regions 0 l) addr = Some (i, r) ->
-  exists gb sz, nth_error l (N.to_nat i) = Some (gb, sz) /\ In (gb, sz) l /\
+  exists gb sz, nth_region l i = Some (gb, sz) /\ In (gb, sz) l /\
     r = GR (RG (REG_BASE + i * REG_STRIDE) sz) gb /\ gb <= addr /\ addr - gb < sz /\
     REG_BASE + i * REG_STRIDE + sz < W64 /\ sz <= ISZ_MAX.
 Proof.
   intros [Hsz Hlen] E. destruct (find_region_lin_spec l 0 addr i r E) as (gb & sz & Hn & _ & Hr & Ha & Hb).
   rewrite N.sub_0_r in Hn. exists gb, sz.
-  assert (Hin : In (gb, sz) l) by (eapply nth_error_In; eassumption).
+  destruct (nth_region_In _ _ _ Hn) as [Hin Hi].
   assert (Hs : sz < REG_STRIDE). { rewrite Forall_forall in Hsz. apply (Hsz (gb, sz) Hin). }
-  assert (Hi : (N.to_nat i < length l)%nat). { apply nth_error_Some. rewrite Hn. discriminate. }
   repeat split; try assumption.
   - rewrite REG_BASE_val, REG_STRIDE_val in *. rewrite W64_val. lia.
   - rewrite ISZ_MAX_val. rewrite REG_STRIDE_val in Hs. lia.
